@@ -557,6 +557,93 @@ static void source_queue(Case &k, size_t pre, size_t post, size_t slack, size_t 
   c.label(m.clen ? "queue:wrapped-message" : "queue:contiguous-message");
 }
 
+// ---- mpt_message_get over arbitrary ranges of a queue, with and without the spare iovec, into a message the caller
+//      already uses: success -> the message reads exactly that range of the queue; refusal -> the caller's message
+//      is what it was (it must keep reading like the contiguous string)
+struct QueueFix {
+  uint8_t *buf = 0;
+  queue qu;
+  Bytes content;
+  ~QueueFix() { free(buf); }
+  void build(const Bytes &data, size_t slack, size_t off) {
+    content = data;
+    size_t max_ = data.size() + slack;
+    if (!max_) max_ = 1;
+    off %= max_;
+    buf = (uint8_t *)malloc(max_);  // exact size: a part reaching behind the ring storage is an ASan report
+    memset(buf, 0xEE, max_);
+    for (size_t i = 0; i < data.size(); i++) buf[(off + i) % max_] = (uint8_t)data[i];
+    qu.base = buf; qu.len = data.size(); qu.max = max_; qu.off = off;
+  }
+  bool wrapped() const { return qu.max - qu.off < qu.len; }
+};
+static void get_once(Case &k, QueueFix &q, size_t o, size_t t, bool with_vec) {
+  Ctx &c = k.c;
+  size_t qlen = q.content.size();
+  bool valid = o <= qlen && t <= qlen - o;
+  bool crossing = valid && t && (q.qu.off + o) % q.qu.max + t > q.qu.max;
+  message m = k.fmsg;  // the message the caller holds: the generated fragment list
+  const message before = m;
+  struct iovec vec;
+  vec.iov_base = (void *)&vec; vec.iov_len = 0x5a5a;
+  int r = mpt_message_get(&q.qu, o, t, &m, with_vec ? &vec : 0);
+  c.logf("mpt_message_get(queue max %zu off %zu len %zu; off %zu, take %zu, %s) = %d%s", q.qu.max, q.qu.off, qlen, o, t, with_vec ? "vec" : "no vec", r,
+         !valid ? " (outside)" : crossing ? " (range crosses the wrap)" : "");
+  if (r < 0) {
+    CK(c, m.used == before.used && m.base == before.base && m.cont == before.cont && m.clen == before.clen, "get-refused-changed",
+       "refused mpt_message_get (%d) changed the caller's message: used %zu->%zu, base %s, cont %s, clen %zu->%zu", r, before.used, m.used, m.base == before.base ? "same" : "CHANGED",
+       m.cont == before.cont ? "same" : "CHANGED", before.clen, m.clen);
+    CK(c, flatten(m) == k.text, "get-refused-changed", "after a refused mpt_message_get the caller's message no longer reads like the text");
+    CK(c, !(valid && with_vec), "get-refused", "mpt_message_get(off %zu, take %zu) with a spare iovec on a queue of %zu bytes returned %d", o, t, qlen, r);
+    c.label(!valid ? "get:refused-range" : with_vec || !crossing ? "get:refused-other" : "get:refused-no-vec");
+    if (k.nonempty >= 2) k.nt = true;
+    return;
+  }
+  CK(c, valid, "get-range", "mpt_message_get(off %zu, take %zu) on a queue of %zu bytes returned %d", o, t, qlen, r);
+  CK(c, m.clen <= (with_vec ? 1u : 0u), "get-parts", "mpt_message_get returned %d, message has %zu continuation parts %s", r, m.clen, with_vec ? "for one spare iovec" : "without a spare iovec");
+  if (m.clen) CK(c, m.cont == &vec, "get-parts", "continuation of the message is not the supplied iovec");
+  else m.cont = 0;
+  Bytes want = q.content.substr(o, t), got = flatten(m);
+  CK(c, got == want, "get-reference", "mpt_message_get(off %zu, take %zu): message is %zu bytes %s, queue holds %s there", o, t, got.size(), show(got).c_str(), show(want).c_str());
+  // and it reads like that contiguous range through the library, too
+  message tmp = m;
+  Bytes buf(t + 1, (char)0xAA);
+  size_t rd = mpt_message_read(&tmp, t + 1, &buf[0]);
+  CK(c, rd == t && !memcmp(buf.data(), want.data(), t) && (uint8_t)buf[t] == 0xAA, "get-reference", "message from mpt_message_get(off %zu, take %zu) reads %zu bytes %s", o, t, rd, show(buf.substr(0, rd)).c_str());
+  c.label(m.clen ? "get:ok-two-parts" : "get:ok-one-part");
+  if (m.clen) k.nt = true;
+}
+static Bytes filler(size_t n, char first) {
+  Bytes s;
+  for (size_t i = 0; i < n; i++) s.push_back((char)(first + i % 26));
+  return s;
+}
+static void op_get(Case &k) {
+  Ctx &c = k.c;
+  QueueFix q;
+  size_t pre = c.weighted({1, 1}) ? c.range(1, 12) : 0, post = c.weighted({1, 1}) ? c.range(1, 12) : 0, slack = c.weighted({1, 1}) ? c.range(1, 8) : 0;
+  Bytes data = filler(pre, 'A') + k.text + filler(post, 'a');
+  q.build(data, slack, c.range(0, data.size() + slack));
+  size_t qlen = data.size(), first = q.qu.max - q.qu.off;  // bytes up to the end of the ring storage
+  c.label(q.wrapped() ? "get:queue-wrapped" : "get:queue-contiguous");
+  unsigned calls = 0;
+  do {
+    size_t o, t;
+    switch (c.weighted({3, 3, 2, 1, 1})) {
+      case 0: o = c.range(0, qlen); t = c.range(0, qlen - o); break;
+      case 1:  // across the wrap when there is one
+        if (q.wrapped() && first) { o = c.range(0, first - 1); t = first - o + c.range(0, qlen - first); }
+        else { o = c.range(0, qlen); t = qlen - o; }
+        break;
+      case 2: o = pre; t = k.text.size(); break;
+      case 3: o = qlen + c.range(1, 4); t = c.range(0, 2); break;
+      default: o = c.range(0, qlen); t = qlen - o + c.range(1, 4); break;
+    }
+    get_once(k, q, o, t, c.weighted({2, 1}) == 0);
+  } while (++calls < 4 && c.more());
+  c.label("op:get");
+}
+
 static Bytes draw_set(Ctx &c, const Bytes &text, size_t maxn) {
   size_t n = c.range(0, maxn);
   Bytes s;
@@ -592,7 +679,7 @@ static Bytes draw_tokset(Ctx &c, const char *typical) {
   return s;
 }
 
-enum { OpRead, OpLength, OpMemchr, OpMemstr, OpMemfcn, OpMemtok, OpMemcpy, OpAppend, OpArgv, OpArrayMessage, OpAppendBounded, NOp };
+enum { OpRead, OpLength, OpMemchr, OpMemstr, OpMemfcn, OpMemtok, OpMemcpy, OpAppend, OpArgv, OpArrayMessage, OpAppendBounded, OpGet, NOp };
 
 static void one_op(Case &k, int op) {
   Ctx &c = k.c;
@@ -659,6 +746,7 @@ static void one_op(Case &k, int op) {
       op_append_bounded(k, Bytes(p, 'p'), p + room);
       break;
     }
+    case OpGet: op_get(k); break;
   }
 }
 
@@ -682,7 +770,7 @@ static void run(Ctx &c) {
   CK(c, flatten(k.fmsg) == k.text && flatten(k.omsg) == k.text, "harness", "fragment construction broken");
   unsigned ops = 0;
   do {
-    one_op(k, (int)c.weighted({4, 1, 2, 2, 2, 4, 3, 2, 5, 3, 3}));  // new operations are added at the end: existing case bytes keep their meaning
+    one_op(k, (int)c.weighted({4, 1, 2, 2, 2, 4, 3, 2, 5, 3, 3, 3}));  // new operations are added at the end: existing case bytes keep their meaning
   } while (++ops < 8 && c.more());
   if (k.nt) c.nontrivial();
 }
@@ -741,6 +829,16 @@ static void run_enum(Ctx &c) {
   op_append(k, "pp");
   // fixed-capacity arrays: every capacity from "nothing fits" to "just fits", with and without content before
   for (size_t room = 0; room <= n; room++) { op_append_bounded(k, Bytes(), room); op_append_bounded(k, "pp", 2 + room); }
+  // queue ranges: independent of the composition, so only once per string (with the uncut form as the caller's message)
+  if (lens.size() == 1) {
+    for (size_t slack : {(size_t)0, (size_t)2})
+      for (size_t off = 0; off < n + slack || !off; off++) {
+        QueueFix q;
+        q.build(k.text, slack, off);
+        for (size_t o = 0; o <= n + 1; o++)
+          for (size_t t = 0; o + t <= n + 2; t++) { get_once(k, q, o, t, true); get_once(k, q, o, t, false); }
+      }
+  }
   op_memcpy(k, -1, {n / 2, n - n / 2});
   op_memcpy(k, (ssize_t)n, {0, 1, n});
   // reads: every split of the text into two reads, then one byte at a time
@@ -758,7 +856,7 @@ static Target t = {
     "C17",
     "random: text <= 300 bytes (words/white space/quotes/separators/comments/NULs | 1-4 symbol alphabet | arbitrary) x composition into <= 6 fragments with empty fragments, each fragment an "
     "exact-size heap block, or the parts mpt_message_get() yields for a range of a (wrapped) queue; 1-8 operations out of read schedules (lengths at fragment borders +-1), length, "
-    "memchr/memrchr, memstr/memrstr, memfcn/memrfcn, memtok(tok,com,esc), memcpy into a <= 4 fragment target, mpt_message_append (growing array | array on a fixed-capacity buffer that refuses to grow, capacity at fragment borders +-1), the argv/read/skip loop, mpt_array_message; every result compared "
+    "memchr/memrchr, memstr/memrstr, memfcn/memrfcn, memtok(tok,com,esc), memcpy into a <= 4 fragment target, mpt_message_append (growing array | array on a fixed-capacity buffer that refuses to grow, capacity at fragment borders +-1), the argv/read/skip loop, mpt_array_message, mpt_message_get over ranges of a second (wrapped) queue with and without the spare iovec into the message the caller holds (refusal must leave it unchanged); every result compared "
     "with the same call on the contiguous copy and with a flat reference where one exists. exhaustive: all strings of length <= 5 (thorough: 6) over {a, space, quote, newline} x all compositions "
     "into <= 3 fragments x a fixed battery of all operations. non-trivial: >= 2 non-empty fragments and the answer position / consumed extent lies behind the first non-empty fragment "
     "(enumerated cases all count); distinct by hash of the draw sequence.",
